@@ -29,7 +29,7 @@ Inductive case := CHist (steps : list (option Z * op * obs)).
 
 Definition outcome (s : state) (o : op) : bool :=
   match o with
-  | Vote v known c => vote_ok s v known c
+  | VoteBy sg v known c => vote_ok s sg v known c
   | Tally => snd (tally s)
   | _ => true
   end.
